@@ -192,8 +192,10 @@ def classify(kind, v) -> str:
     from dateutil.parser import isoparse
 
     isnum = isinstance(v, (int, float)) and not isinstance(v, bool)
-    if isinstance(v, float) and not math.isfinite(v) and kind in ("int", "num", "any", "str"):
+    if isinstance(v, float) and not math.isfinite(v) and kind in ("int", "num", "any"):
         return "nonfinite"
+    if isinstance(v, float) and not math.isfinite(v) and kind == "str":
+        return "lenient"      # a number offered to a string property is taken by str() or refused, like 1.5 - finite or not
     if kind == "any":
         return "valid" if _finite_tree(v) else "nonfinite"
     if kind == "str":
